@@ -127,6 +127,8 @@ Definition path_of (s : string) : path :=
    keeps every component); filepath.Base = the raw last component *)
 Definition pdir (p : path) : path :=
   mkPath (p_abs p) (clean (p_abs p) (if p_trail p then p_comps p else removelast (p_comps p))) false.
+(* filepath.Clean of the whole path ("" and "." become the root) *)
+Definition pclean (p : path) : path := mkPath (p_abs p) (clean (p_abs p) (p_comps p)) false.
 Definition pbase (p : path) : option string :=
   match rev (p_comps p) with
   | [] => None
